@@ -79,6 +79,7 @@ type c19Case struct {
 	Kind   string `json:"kind"` // roundtrip | invalid | truncated | raw-target | bytes-target | big
 	Doc    string `json:"doc"`
 	Seed   int64  `json:"seed"`
+	Target int    `json:"target_kind,omitempty"` // invalid / truncated: 0 interface, 1 RawMessage, 2 map, 3 struct with a RawMessage field, 4 slice
 }
 
 func runC19Case(cc c19Case, lines, expect, what *[]string) (string, string) {
@@ -167,8 +168,29 @@ func runC19Case(cc c19Case, lines, expect, what *[]string) (string, string) {
 	case "invalid", "truncated":
 		doc := cc.Doc
 		peer.writeFrame(RawFrame{Fin: true, Op: 1, Payload: []byte(doc)})
-		var got interface{}
-		err := wsjson.Read(ctx, c, &got)
+		// every kind of target: an invalid document is an error whatever the caller decodes into
+		var err error
+		tk := cc.Target % 5
+		switch tk {
+		case 0:
+			var got interface{}
+			err = wsjson.Read(ctx, c, &got)
+		case 1:
+			var got json.RawMessage
+			err = wsjson.Read(ctx, c, &got)
+		case 2:
+			var got map[string]interface{}
+			err = wsjson.Read(ctx, c, &got)
+		case 3:
+			var got struct {
+				A json.RawMessage `json:"a"`
+			}
+			err = wsjson.Read(ctx, c, &got)
+		default:
+			var got []interface{}
+			err = wsjson.Read(ctx, c, &got)
+		}
+		desc += fmt.Sprintf(" target-kind=%d", tk)
 		if err == nil {
 			return "invalid-json-accepted", fmt.Sprintf("%s: %q decoded without error", desc, trunc(doc, 60))
 		}
@@ -228,7 +250,7 @@ func runC19Case(cc c19Case, lines, expect, what *[]string) (string, string) {
 func runC19(ctx *runCtx) {
 	rep := ctx.rep
 	rep.Rule = "JSON values from a recursive generator (nesting <= 4, null/bool/integers/floats, strings with escapes, unicode and control characters, arrays, objects, 40-70 KB strings beyond the default read limit with the limit raised), written with wsjson.Write and observed by a raw peer (exactly one text message, payload = json.Marshal + newline, nothing after it) and read back with wsjson.Read from a fragmented message followed by another message (exactly one consumed); " +
-		"malformed and truncated documents (error + Close 1007); RawMessage and []byte targets checked after later reads and 16 concurrent connections sharing the buffer pool (aliasing); the Lean JSON codec compared on the integer fragment. distinct = case tuple"
+		"malformed and truncated documents into every kind of target (interface, RawMessage, map, struct, slice: error + Close 1007); RawMessage and []byte targets checked after later reads and 16 concurrent connections sharing the buffer pool (aliasing); the Lean JSON codec compared on the integer fragment. distinct = case tuple"
 	if ctx.replay != "" {
 		var cc c19Case
 		if err := loadReplay(ctx.replay, &cc); err == nil && cc.Kind != "" {
@@ -254,7 +276,7 @@ func runC19(ctx *runCtx) {
 	}
 	bad := []string{"", "{", "}", "[1,2", `{"a":}`, `{"a" 1}`, `{a:1}`, `"unterminated`, "nul", "tru", "[1,]", `{"a":1,}`, "1 2", `"\x"`, "\"\x01\"", "[", "]", "--1", "+1", "0x10", `{"a":1}}`, "'single'", `"\u12"`, `[1 2]`, "{}{}"}
 	for i, d := range bad {
-		cases = append(cases, c19Case{Client: i%2 == 0, Kind: "invalid", Doc: d, Seed: ctx.seed})
+		cases = append(cases, c19Case{Client: i%2 == 0, Kind: "invalid", Doc: d, Seed: ctx.seed}, c19Case{Client: i%2 == 1, Kind: "invalid", Doc: d, Seed: ctx.seed, Target: 1}, c19Case{Client: i%2 == 0, Kind: "invalid", Doc: d, Seed: ctx.seed, Target: 2 + i%3})
 	}
 	for i := 0; i < n/10; i++ {
 		v := genJSON(newRng(ctx.seed+int64(i), "trunc"), 3, true)
@@ -262,7 +284,7 @@ func runC19(ctx *runCtx) {
 		if len(b) < 3 || b[0] != '{' && b[0] != '[' && b[0] != '"' {
 			continue
 		}
-		cases = append(cases, c19Case{Client: i%2 == 0, Kind: "truncated", Doc: string(b[:1+rng.Intn(len(b)-1)]), Seed: ctx.seed})
+		cases = append(cases, c19Case{Client: i%2 == 0, Kind: "truncated", Doc: string(b[:1+rng.Intn(len(b)-1)]), Seed: ctx.seed, Target: i % 5})
 	}
 	for i := 0; i < 16; i++ {
 		cases = append(cases, c19Case{Client: i%2 == 0, Kind: []string{"raw-target", "bytes-target"}[i%2], Seed: ctx.seed + int64(i)})
